@@ -352,9 +352,40 @@ where T: Integer, for<'x> &'x T: IntOps<T> {
 impl<T> Ord for Ratio<T>
 where T: Integer, for<'x> &'x T: IntOps<T> {
     fn cmp(&self, other: &Self) -> cmp::Ordering {
-        let l = self.to_f64();
-        let r = other.to_f64();
-        l.total_cmp(&r)
+        // exact, overflow-free comparison by continued fraction expansion
+        // (denominators are positive).
+        fn div_mod_floor<T>(a: &T, b: &T) -> (T, T)
+        where T: Integer, for<'x> &'x T: IntOps<T> {
+            let (q, r) = (a / b, a % b);
+            if r.is_negative() { 
+                (q - T::one(), r + b)
+            } else { 
+                (q, r)
+            }
+        }
+
+        let (mut a, mut b) = (self.numer.clone(),  self.denom.clone());
+        let (mut c, mut d) = (other.numer.clone(), other.denom.clone());
+
+        loop { 
+            let (q1, r1) = div_mod_floor(&a, &b);
+            let (q2, r2) = div_mod_floor(&c, &d);
+
+            let o = q1.cmp(&q2);
+            if o != cmp::Ordering::Equal { 
+                return o
+            }
+
+            match (r1.is_zero(), r2.is_zero()) { 
+                (true,  true ) => return cmp::Ordering::Equal,
+                (true,  false) => return cmp::Ordering::Less,
+                (false, true ) => return cmp::Ordering::Greater,
+                (false, false) => { 
+                    // r1/b <=> r2/d  iff  d/r2 <=> b/r1
+                    (a, b, c, d) = (d, r2, b, r1);
+                }
+            }
+        }
     }
 }
 
